@@ -181,6 +181,9 @@ func (p *printer) gap(want int) {
 	if p.st.Cmt && p.quoted == 0 && p.chance(1, 10) {
 		s += "/* c */"
 	}
+	if s != "" && needSep(p.last, s[0]) {
+		p.write(" ")
+	}
 	p.write(s)
 }
 
